@@ -288,6 +288,24 @@ prop("C18", "TestC18", "exploration",
                       "corruption:unequal-row", "corruption:non-iupac", "corruption:empty-file", "corruption:missing-file", "corruption:empty-sam",
                       "corruption:width-mismatch", "corruption:reference-two-records", "corruption:empty-csv", "corruption:csv-not-updown-list"])
 
+q, t = tiers(4, 120, 16, 600, floor_q=100, floor_t=1000, q_timeout=600, t_timeout=3000)
+t["race"] = True
+t["checks"] = 250
+prop("C12", "TestC12", "exploration",
+     "For every command (sam toMultiAlign with/without --wrap, toPairAlign directory and -o stdout, sam variants and variants with/without --aggregate, snps "
+     "with/without --aggregate, closest, closest -n with/without --table, updown list, updown topranking list/--table) an input with >= 8 records is generated "
+     "(with equal-distance targets, recurring mutations, features sharing a start, same-position aggregate entries) and run under 2..4 configurations x 1..3 "
+     "repetitions: --threads in {1,2,3,4,8,16}, GOMAXPROCS in {1,2,4,16}, and a scheduling-jitter seed (hook pkg/vhook, build tag verif: each worker "
+     "sleeps 0..300 us or yields before its channel send as a pure function of (seed, site, record index), and counts completion-order inversions); every "
+     "run's bytes must equal the baseline run (threads 1, no jitter), and three more baseline runs must equal the first (hash-map iteration order). The "
+     "thorough tier builds harness and gofasta with -race and GORACE=halt_on_error=1, so a detected data race kills the shard on the case in flight, which "
+     "the driver then replays to confirm and report.",
+     "Explores the interleavings that jitter at the seven stage boundaries, thread counts and GOMAXPROCS can produce, plus the race detector; it cannot enumerate all interleavings nor prove race freedom. A green run means no divergence in the N perturbed schedules listed in the evidence (coverage.counters.runs / runs_with_completion_order_inversion). `sam indels` is out of scope.",
+     "property-based testing (rapid): metamorphic relation output(configuration) == output(baseline) under seeded schedule perturbation; race detector in the thorough tier",
+     "inputs from the C01/C04/C03/C06/C08 generators padded to >= 8 records; non-trivial = a run in which the hook observed a completion-order inversion, or threads > 1 with >= 8 records; distinct = hash of the case (input + configurations)",
+     q, t, required_labels=["cmd:toMultiAlign", "cmd:toPairAlign", "cmd:toPairAlign-stdout", "cmd:sam-variants", "cmd:variants", "cmd:snps", "cmd:closest", "cmd:closestN",
+                            "cmd:updown-list", "cmd:topranking", "inversion-observed"])
+
 NOT_CLAIMED = {}
 
 
